@@ -19,7 +19,7 @@ const tMaxIters = 4
 func init() {
 	Register(&World{Name: "tree", Props: []string{"C01", "C02", "C03"}, Concurrent: false, Run: treeWorld})
 	ExpectedProbes["tree"] = []string{
-		"depth>=3", "depth>=4", "coarse-overwrite-equivalent-key", "empty-first-last", "copy-sees-write",
+		"depth>=3", "thorough:depth>=4", "coarse-overwrite-equivalent-key", "empty-first-last", "copy-sees-write",
 		"bounds/unb-unb", "bounds/unb-inc", "bounds/unb-exc", "bounds/inc-unb", "bounds/inc-inc", "bounds/inc-exc",
 		"bounds/exc-unb", "bounds/exc-inc", "bounds/exc-exc",
 		"steal-left", "steal-right", "merge-left", "merge-right", "steal-internal", "merge-cascade>=2", "root-collapse",
